@@ -7,7 +7,8 @@
 //         <str> is  h<hex bytes>  (literal)  or  g<len>.<seed>  (generated pattern)
 //   dec kind=.. x=<hex of the characters>   |   dec kind=.. g=<len>.<seed>.<alphabet 0|1|2>
 // Every operation runs in a forked worker under a 5 s watchdog; a worker that dies (sanitizer
-// abort, signal, watchdog) gives a "crash" event and the next worker continues after it.
+// abort, signal, watchdog) gives a "crash" event and the next worker continues after it; an operation
+// during which UBSan printed a report gives a "crash" event with "recovered":true.
 // Events (one json object per line):
 //   {"op":"rt","tag","m":M,"exact":b,"enc":"ok"|"error","enc_type","uri":S,"dec":"ok"|"invalid_argument"|"other"|"none","dec_type","d":M}
 //   {"op":"dec","kind","x":S,"exact":b,"res":"ok"|"invalid_argument"|"other","type","d":M}
@@ -16,11 +17,18 @@
 // when n <= kFull, else the first and last 16 bytes.
 #include "common/ev.hpp"
 #include "ephemeralnet/protocol/Manifest.hpp"
+// The code under test is compiled inside this translation unit (harness/manifest.mk: -I$(REPO)/src,
+// -fsanitize-recover=undefined): in the asan flavour UBSan then reports and continues, so an input that
+// triggers undefined behaviour costs one event instead of a dead worker (ASan errors still abort).
+// UBSan reports each source location once per process: later inputs reaching the same location are not
+// reported again by that worker.
+#include "protocol/Manifest.cpp"
 
 #include <cxxabi.h>
 #include <fcntl.h>
 #include <signal.h>
 #include <sys/mman.h>
+#include <sys/stat.h>
 #include <sys/wait.h>
 #include <unistd.h>
 
@@ -167,8 +175,61 @@ static std::string type_name(const std::type_info& t) {
 struct Outcome { std::string res, type; };
 
 // ---- worker / supervisor ------------------------------------------------------------------------------
+static std::string classify_text(const std::string& t, int status) {
+    auto slug = [](std::string s) { std::string r; for (char ch : s) r += (std::isalnum(static_cast<unsigned char>(ch)) ? static_cast<char>(std::tolower(ch)) : '-'); while (!r.empty() && r.back() == '-') r.pop_back(); return r; };
+    auto p = t.find("runtime error: ");
+    if (p != std::string::npos) {
+        std::string msg = t.substr(p + 15, t.find('\n', p) - p - 15);
+        // "signed integer overflow: 9 * 1000000000 cannot be ..." -> signed-integer-overflow
+        auto colon = msg.find(':');
+        std::string head = colon == std::string::npos ? msg : msg.substr(0, colon);
+        if (head.size() > 40) head = head.substr(0, 40);
+        return "sanitizer/" + slug(head);
+    }
+    p = t.find("AddressSanitizer: ");
+    if (p != std::string::npos) {
+        std::string msg = t.substr(p + 18, t.find_first_of(" \n", p + 18) - p - 18);
+        return "sanitizer/" + slug(msg);
+    }
+    p = t.find("LeakSanitizer");
+    if (p != std::string::npos) return "sanitizer/leak";
+    if (WIFSIGNALED(status)) {
+        if (WTERMSIG(status) == SIGALRM) return "timeout";
+        return "signal/" + std::to_string(WTERMSIG(status));
+    }
+    if (status < 0) return "";
+    return "exit/" + std::to_string(WIFEXITED(status) ? WEXITSTATUS(status) : -1);
+}
+static std::string classify(const std::string& errfile, int status) {
+    std::ifstream in(errfile);
+    std::stringstream ss;
+    ss << in.rdbuf();
+    return classify_text(ss.str(), status);
+}
+// text the sanitizer runtime wrote to the worker's stderr (a file) since mark
+static off_t g_mark = 0;
+static std::string g_errfile;
+static std::string ub_since_mark() {
+    struct stat st{};
+    if (fstat(2, &st) != 0 || st.st_size <= g_mark) return "";
+    std::ifstream in(g_errfile);
+    in.seekg(g_mark);
+    std::stringstream ss;
+    ss << in.rdbuf();
+    g_mark = st.st_size;
+    std::string k = classify_text(ss.str(), -1);
+    return k.empty() ? "sanitizer/unclassified-output" : k;
+}
+
 struct Shared { volatile long idx; volatile int phase; };   // phase 0 idle, 1 enc, 2 dec
 static Shared* g_sh;
+
+static void crash_event(const ev::Cmd& c, const char* phase, const std::string& why, bool recovered) {
+    ev::Ev e("crash");
+    e.s("in", c.op).s("tag", c.op == "rt" ? c.s("tag", "") : c.s("kind", "")).s("phase", phase).s("why", why).i("line", g_sh->idx + 1).b("recovered", recovered);
+    e.emit();
+    std::fflush(ev::out());
+}
 
 static void run_one(const ev::Cmd& c) {
     if (c.op == "rt") {
@@ -184,6 +245,7 @@ static void run_one(const ev::Cmd& c) {
         catch (const std::exception& ex) { enc = {"error", type_name(typeid(ex))}; }
         catch (...) { enc = {"error", "unknown"}; }
         g_sh->phase = 0;
+        if (std::string ub = ub_since_mark(); !ub.empty()) { crash_event(c, "enc", ub, true); return; }
         bool exact = all_full(m) && enc.res == "ok" && uri.size() <= kExactUri;
         if (enc.res != "ok") exact = all_full(m) && m.shards.size() + m.metadata.size() + m.discovery_hints.size() + m.fallback_hints.size() <= 8;
         e.b("exact", exact).s("enc", enc.res).s("enc_type", enc.type);
@@ -196,6 +258,7 @@ static void run_one(const ev::Cmd& c) {
             catch (const std::exception& ex) { dec = {dynamic_cast<const std::invalid_argument*>(&ex) ? "invalid_argument" : "other", type_name(typeid(ex))}; }
             catch (...) { dec = {"other", "unknown"}; }
             g_sh->phase = 0;
+            if (std::string ub = ub_since_mark(); !ub.empty()) { crash_event(c, "dec", ub, true); return; }
             e.s("dec", dec.res).s("dec_type", dec.type);
             if (dec.res == "ok") e.raw("d", jmanifest(d));
         } else {
@@ -224,6 +287,7 @@ static void run_one(const ev::Cmd& c) {
         catch (const std::exception& ex) { dec = {dynamic_cast<const std::invalid_argument*>(&ex) ? "invalid_argument" : "other", type_name(typeid(ex))}; }
         catch (...) { dec = {"other", "unknown"}; }
         g_sh->phase = 0;
+        if (std::string ub = ub_since_mark(); !ub.empty()) { crash_event(c, "dec", ub, true); return; }
         bool exact = x.size() <= kExactUri && (dec.res != "ok" || all_full(d));
         ev::Ev e("dec");
         e.s("kind", c.s("kind", "")).raw("x", summ(x, exact ? kExactUri : 0)).b("exact", exact).s("res", dec.res).s("type", dec.type);
@@ -233,35 +297,6 @@ static void run_one(const ev::Cmd& c) {
         die("unknown op " + c.op);
     }
     std::fflush(ev::out());
-}
-
-static std::string classify(const std::string& errfile, int status) {
-    std::ifstream in(errfile);
-    std::stringstream ss;
-    ss << in.rdbuf();
-    std::string t = ss.str();
-    auto slug = [](std::string s) { std::string r; for (char ch : s) r += (std::isalnum(static_cast<unsigned char>(ch)) ? static_cast<char>(std::tolower(ch)) : '-'); while (!r.empty() && r.back() == '-') r.pop_back(); return r; };
-    auto p = t.find("runtime error: ");
-    if (p != std::string::npos) {
-        std::string msg = t.substr(p + 15, t.find('\n', p) - p - 15);
-        // "signed integer overflow: 9 * 1000000000 cannot be ..." -> signed-integer-overflow
-        auto colon = msg.find(':');
-        std::string head = colon == std::string::npos ? msg : msg.substr(0, colon);
-        if (head.size() > 40) head = head.substr(0, 40);
-        return "sanitizer/" + slug(head);
-    }
-    p = t.find("AddressSanitizer: ");
-    if (p != std::string::npos) {
-        std::string msg = t.substr(p + 18, t.find_first_of(" \n", p + 18) - p - 18);
-        return "sanitizer/" + slug(msg);
-    }
-    p = t.find("LeakSanitizer");
-    if (p != std::string::npos) return "sanitizer/leak";
-    if (WIFSIGNALED(status)) {
-        if (WTERMSIG(status) == SIGALRM) return "timeout";
-        return "signal/" + std::to_string(WTERMSIG(status));
-    }
-    return "exit/" + std::to_string(WIFEXITED(status) ? WEXITSTATUS(status) : -1);
 }
 
 int main(int argc, char** argv) {
@@ -286,6 +321,7 @@ int main(int argc, char** argv) {
         if (pid == 0) {
             int fd = ::open(errfile.c_str(), O_WRONLY | O_CREAT | O_TRUNC, 0644);
             if (fd >= 0) { dup2(fd, 2); ::close(fd); }
+            g_errfile = errfile; g_mark = 0;
             for (long i = start; i < n; ++i) {
                 g_sh->idx = i;
                 alarm(5);
@@ -308,11 +344,8 @@ int main(int argc, char** argv) {
         // the worker's unflushed events are lost with it only if it died inside an operation:
         // it flushes after every event, so everything before operation i is in the file.
         std::fseek(ev::out(), 0, SEEK_END);
-        ev::Ev e("crash");
-        e.s("in", cmds[i].op).s("tag", cmds[i].op == "rt" ? cmds[i].s("tag", "") : cmds[i].s("kind", ""))
-         .s("phase", phase == 1 ? "enc" : phase == 2 ? "dec" : "driver").s("why", classify(errfile, status)).i("line", i + 1);
-        e.emit();
-        std::fflush(ev::out());
+        g_sh->idx = i;
+        crash_event(cmds[i], phase == 1 ? "enc" : phase == 2 ? "dec" : "driver", classify(errfile, status), false);
         start = i + 1;
     }
     std::fflush(ev::out());
